@@ -24,7 +24,7 @@ Places == {"header", "between-blocks", "after-expressions-header", "inside-expre
            \* inside a parenthesised sub-expression
            "inside-declaration", "inside-header", "comment-in-continuation", "comment-in-parentheses"}
 \* index into the harness' table of comment strings (plain words, unit names, "1/0", "9**9**9", "x = 3", quotes, ...)
-NStrings == 38
+NStrings == 43
 NeedsString(p) == p \in {"header", "between-blocks", "after-expressions-header", "inside-expressions", "trailing", "end-of-file", "two-comments",
                           "after-header-and-inside", "header-and-trailing", "comment-every-line", "comment-every-assignment",
                           "inside-declaration", "inside-header", "comment-in-continuation", "comment-in-parentheses"}
